@@ -241,6 +241,16 @@ def _elem_witnesses():
     return out
 WITNESSES += _elem_witnesses()
 
+# a CLIPPED operand (extents known only up to an upper bound) against a run-time shape: an extent of the clipped operand may be 1 at run
+# time and stretch to any extent of the other operand, so its bounds say nothing about the result (F46)
+def _bsclip(id, bounds, swapped):
+    ext = ",".join("nm::clipped_size_t<%d>" % b for b in bounds)
+    a, b = ("nmtools_tuple<%s>" % ext), ("nmtools_array<size_t,%d>" % len(bounds))
+    if swapped: a, b = b, a
+    return W(id, "C11", "pass", "broadcast_shape(%s clipped shape with bounds %s, run-time shape): the result's extents carry no static bound" % ("run-time shape," if swapped else "", bounds),
+        "void f(){ using R = meta::get_maybe_type_t<decltype(nm::index::broadcast_shape(std::declval<%s>(), std::declval<%s>()))>; static_assert(!meta::is_clipped_index_array_v<R> && !meta::is_constant_index_array_v<R>); }" % (a, b))
+WITNESSES += [_bsclip("c11_bshape_clipped_3", (3,), False), _bsclip("c11_bshape_clipped_3_sw", (3,), True), _bsclip("c11_bshape_clipped_34", (3,4), False), _bsclip("c11_bshape_clipped_34_sw", (3,4), True), _bsclip("c11_bshape_clipped_232", (2,3,2), False)]
+
 # ---------------- C10: the array type the default evaluator allocates can represent every shape the view can take
 def _result_witnesses():
     out = []
